@@ -245,6 +245,38 @@ var shiftCorners = []shiftCorner{
 	{"n-1", func(k, n *big.Int) *big.Int { return new(big.Int).Sub(n, one) }},
 	{"2^256-1", func(k, n *big.Int) *big.Int { return new(big.Int).Set(max256) }},
 	{"one", func(k, n *big.Int) *big.Int { return big.NewInt(1) }},
+	// shift*G = +-lambda*(k*G): a point with the same (or the opposite) y and another x (on secp256k1, where
+	// a cube root of unity mod n acts as (x, y) -> (beta*x, y); on P-256 just another scalar)
+	{"lambda*k", func(k, n *big.Int) *big.Int { return new(big.Int).Mod(new(big.Int).Mul(cubeRootOfUnity(n, 1), k), n) }},
+	{"lambda^2*k", func(k, n *big.Int) *big.Int { return new(big.Int).Mod(new(big.Int).Mul(cubeRootOfUnity(n, 2), k), n) }},
+	{"-lambda*k", func(k, n *big.Int) *big.Int {
+		v := new(big.Int).Mod(new(big.Int).Mul(cubeRootOfUnity(n, 1), k), n)
+		return v.Sub(n, v).Mod(v, n)
+	}},
+}
+
+var rootCache = map[string]*big.Int{}
+
+// cubeRootOfUnity returns lambda^e for a non-trivial cube root of unity lambda mod n (n = 1 mod 3 for
+// secp256k1; for an n where none exists it returns 2^e, an ordinary scalar).
+func cubeRootOfUnity(n *big.Int, e int) *big.Int {
+	key := fmt.Sprintf("%x/%d", n, e)
+	if v, ok := rootCache[key]; ok {
+		return v
+	}
+	l := big.NewInt(2)
+	if new(big.Int).Mod(n, big.NewInt(3)).Cmp(one) == 0 {
+		exp := new(big.Int).Div(new(big.Int).Sub(n, one), big.NewInt(3))
+		for g := int64(2); ; g++ {
+			l = new(big.Int).Exp(big.NewInt(g), exp, n)
+			if l.Cmp(one) != 0 {
+				break
+			}
+		}
+	}
+	v := new(big.Int).Exp(l, big.NewInt(int64(e)), n)
+	rootCache[key] = v
+	return v
 }
 
 func mkShift(curve string, k *big.Int, corner string, b *big.Int) shiftCase {
@@ -288,14 +320,14 @@ func TestShift(t *testing.T) {
 	h.Run(t, h.Sub[shiftCase]{
 		Prop: "C08", Name: "shift-commutes", N: 2400,
 		Gen: genShift, Check: checkShift, Require: req,
-		Rule: "private scalars k (corners 1,2,n-1,n-2,(n+-1)/2 and random) x 32-byte shifts (0, k, n-k, n-k+-1, n, n+1, n-1, 2^256-1, 1, random < n, random >= n) on secp256k1 and P-256: priv.Shift and priv.Public().Shift both report ErrInvalidKey or both succeed with matching keys, no panic; third opinion (k+b mod n)G from the affine reference; non-trivial = corner shift or shift >= n; distinct by case",
+		Rule: "private scalars k (corners 1,2,n-1,n-2,(n+-1)/2 and random) x 32-byte shifts (0, k, n-k, n-k+-1, n, n+1, n-1, 2^256-1, 1, +-lambda*k and lambda^2*k for the cube root of unity lambda mod n, random < n, random >= n) on secp256k1 and P-256: priv.Shift and priv.Public().Shift both report ErrInvalidKey or both succeed with matching keys, no panic; third opinion (k+b mod n)G from the affine reference; non-trivial = corner shift or shift >= n; distinct by case",
 	})
 }
 
 func TestShiftCornerGrid(t *testing.T) {
 	h.RunEnum(t, h.Enum[shiftCase]{
 		Prop: "C08", Name: "shift-corner-grid",
-		Rule: "complete grid: 2 curves x 6 corner scalars x 10 corner shifts",
+		Rule: "complete grid: 2 curves x 6 corner scalars x 13 corner shifts",
 		Each: func(yield func(shiftCase) bool) {
 			for _, curve := range []string{"secp256k1", "nist256p1"} {
 				_, rc := curveOf(curve)
